@@ -30,14 +30,14 @@ package quotaresource
 //@   prop C01
 //@   requires quotaOK(q)
 //@   allocates map
-//@   modifies q.allowedByReqID, q.gCounted, mapof(q.allowedByReqID), smapof(cmOf(msOf(q)).ctx), msOf(q).gAdm, msOf(q).gEnd, msOf(q).gLast, now
+//@   modifies q.allowedByReqID, q.gCounted, mapof(q.allowedByReqID), smapof(cmOf(msOf(q)).ctx), msOf(q).gAdm, msOf(q).gEnd, msOf(q).gLast, msOf(q).gRestarted, now
 //@   on return when result == increased do q.gCounted[APIStream.GetID()] = true
 //@   ensures[already]  seq: old(in(APIStream.GetID(), q.allowedByReqID)) ==> result == alreadyIncreased
 //@   ensures[verdict]  seq: !old(in(APIStream.GetID(), q.allowedByReqID)) ==> (result == increased || result == blocked)
 //@   ensures[memo-increased] seq: result == increased ==> in(APIStream.GetID(), q.allowedByReqID) && q.allowedByReqID[APIStream.GetID()]
 //@   ensures[memo-blocked]   seq: result == blocked ==> !in(APIStream.GetID(), q.allowedByReqID) || !q.allowedByReqID[APIStream.GetID()]
-//@   ensures[counted]  seq: result == increased ==> cntOf(msOf(q), q.currentCountKey) == ite(windowRestarted, 0, old(cntOf(msOf(q), q.currentCountKey))) + 1 && cntOf(msOf(q), q.currentCountKey) <= q.maxCount
-//@   ensures[blocked-only-if-full] seq: result == blocked ==> ite(windowRestarted, 0, old(cntOf(msOf(q), q.currentCountKey))) + 1 > q.maxCount && cntOf(msOf(q), q.currentCountKey) == old(cntOf(msOf(q), q.currentCountKey))
+//@   ensures[counted]  seq: result == increased ==> cntOf(msOf(q), q.currentCountKey) == ite(msOf(q).gRestarted[q.currentCountKey], 0, old(cntOf(msOf(q), q.currentCountKey))) + 1 && cntOf(msOf(q), q.currentCountKey) <= q.maxCount
+//@   ensures[blocked-only-if-full] seq: result == blocked ==> ite(msOf(q).gRestarted[q.currentCountKey], 0, old(cntOf(msOf(q), q.currentCountKey))) + 1 > q.maxCount && cntOf(msOf(q), q.currentCountKey) == old(cntOf(msOf(q), q.currentCountKey))
 //@   ensures[other-counters-untouched] seq: forall(k, string, k != q.currentCountKey ==> cntOf(msOf(q), k) == old(cntOf(msOf(q), k)))
 
 //@ func (*quota).Allowed
